@@ -169,6 +169,19 @@ def gen_app(rng, methods):
     rid = sid = 0
     for _ in range(n):
         r = rng.random()
+        routes = [o for o in ops if o[0] == 0]
+        if r < 0.45 and routes and rng.random() < 0.3:
+            # re-register an existing template: same / different resource object x same / different suffix
+            e = rng.choice(routes)
+            suffix = e[4] if rng.random() < 0.4 else ([] if rng.random() < 0.4 else [rng.choice(['items', '', 'zzz'])])
+            if rng.random() < 0.6:
+                ops.append([0, e[1], rid, e[3], suffix, e[5], e[6]])          # the very same object
+            else:
+                attrs = [['on_' + m.lower() + sfx, 1] for m in rng.sample(methods, 3) for sfx in ('', '_items')
+                         if rng.random() < 0.7]
+                ops.append([0, e[1], rid, attrs, suffix, rng.choice([0, 0, 1, 3]), rid])
+            rid += 1
+            continue
         if r < 0.45:
             tpl = rng.choice(TEMPLATES) if rng.random() < 0.9 else rng.choice(BAD_TEMPLATES)
             k = rng.choice([0, 1, 2, 3, 5, len(methods)])
@@ -191,7 +204,7 @@ def gen_app(rng, methods):
                 if a[0] not in seen:
                     seen.add(a[0])
                     uniq.append(a)
-            ops.append([0, tpl, rid, uniq, [] if suffix is None else [suffix], rng.choice([0, 0, 0, 1, 2, 3])])
+            ops.append([0, tpl, rid, uniq, [] if suffix is None else [suffix], rng.choice([0, 0, 0, 1, 2, 3]), rid])
             rid += 1
         elif r < 0.75:
             ops.append([1, sid, rng.choice(SINK_PATS), rng.random() < 0.5])
@@ -208,13 +221,17 @@ def build_real(falcon, asgi, sbs, ops, tmp):
     from falcon.routing.util import SuffixedMethodNotFoundError
     App = falcon.asgi.App if asgi else falcon.App
     app = App(sink_before_static_route=sbs, middleware=[ARsrcMw() if asgi else RsrcMw()])
-    results, static_info = [], {}
+    results, static_info, objs = [], {}, {}
     for o in ops:
         try:
             if o[0] == 0:
-                res = RES_KINDS[o[5] if len(o) > 5 else 0]()
-                for name, is_callable in o[3]:
-                    setattr(res, name, make_responder('route', o[2], name, asgi) if is_callable else 5)
+                oid = o[6] if len(o) > 6 else o[2]
+                if oid not in objs:                      # several registrations may share one object
+                    res = RES_KINDS[o[5] if len(o) > 5 else 0]()
+                    for name, is_callable in o[3]:
+                        setattr(res, name, make_responder('route', oid, name, asgi) if is_callable else 5)
+                    objs[oid] = res
+                res = objs[oid]
                 kw = {}
                 if o[4]:
                     kw['suffix'] = o[4][0]
@@ -267,12 +284,12 @@ def observe_(resp):
     return (str(resp.status_code),)
 
 
-def expected_obs(out, method, path, static_info):
+def expected_obs(out, method, path, static_info, obj_of=None):
     """model outcome (wire) -> the observation it predicts"""
     t = out[0]
     if t == 0:
         kw = tuple(sorted((common.wstr(k), common.wstr(v[1]) if v[0] == 0 else v[1]) for k, v in out[3]))
-        return ('route', out[1], common.wstr(out[2]), kw)
+        return ('route', (obj_of or {}).get(out[1], out[1]), common.wstr(out[2]), kw)
     if t == 1:
         return ('options', ', '.join(common.wstr(m) for m in out[1]))
     if t == 2:
@@ -300,7 +317,7 @@ def expected_obs(out, method, path, static_info):
     return ('broken',)
 
 
-def obs_to_wire(obs, predicted, predicted_obs):
+def obs_to_wire(obs, predicted, predicted_obs, obj_of=None):
     """observation -> outcome wire for the extracted oracle.  Where the observation cannot
     name the static route (OPTIONS answer, missing file) and is what the predicted static
     route would produce, the predicted id is used."""
@@ -308,7 +325,15 @@ def obs_to_wire(obs, predicted, predicted_obs):
     if predicted[0] == 5 and obs == predicted_obs:
         return [5, predicted[1]]
     if k == 'route':
-        return [0, obs[1], obs[2], [[a, [1, b] if isinstance(b, int) and not isinstance(b, bool) else [0, str(b)]]
+        # the responder names the resource OBJECT; the route id is the predicted one when that is
+        # a registration of this object, else the first registration of the object
+        obj_of = obj_of or {}
+        rid = obs[1]
+        if predicted[0] == 0 and obj_of.get(predicted[1], predicted[1]) == obs[1]:
+            rid = predicted[1]
+        else:
+            rid = next((r for r, ob in sorted(obj_of.items()) if ob == obs[1]), obs[1])
+        return [0, rid, obs[2], [[a, [1, b] if isinstance(b, int) and not isinstance(b, bool) else [0, str(b)]]
                                     for a, b in obs[3]]]
     if k == 'options':
         return [1, obs[1].split(', ') if obs[1] else []]
@@ -345,8 +370,9 @@ def check_app(ctx, model, falcon, testing, sbs, ops, methods, paths, tmp, tag='g
         qs = [[m, p, [7]] for m in methods for p in paths]
         out = model.run([0, sbs, wire_ops, qs])
         preds = [o[0] for o in out[1]]
-        exps = [expected_obs(o, q[0], q[1], static_info) for o, q in zip(preds, qs)]
-        qs2 = [[q[0], q[1], obs_to_wire(ob, pr, ex)] for q, ob, pr, ex in zip(qs, obs, preds, exps)]
+        obj_of = {o[2]: (o[6] if len(o) > 6 else o[2]) for o in ops if o[0] == 0}
+        exps = [expected_obs(o, q[0], q[1], static_info, obj_of) for o, q in zip(preds, qs)]
+        qs2 = [[q[0], q[1], obs_to_wire(ob, pr, ex, obj_of)] for q, ob, pr, ex in zip(qs, obs, preds, exps)]
         out2 = model.run([0, sbs, wire_ops, qs2])
         detail0 = {'asgi': asgi, 'sbs': sbs, 'ops': ops, 'tag': tag}
         if out[0] != results:
@@ -408,6 +434,20 @@ FIXED_APPS = [
     (True, [[1, 0, lit('/'), False], [2, 1, '/a', 1],
             [0, '/a/{x}', 0, [['on_get', 1]], [], 1], [0, '/a/{n:int}/c', 1, [['on_put', 1]], [], 3],
             [0, '/s', 2, [['on_get', 1], ['on_options', 1]], [], 2]]),
+    # re-registration of a template: same / different resource object x same / different suffix, both orders;
+    # the method map (405 / Allow / suffix isolation) must be the one of the LAST registration
+    (True, [[0, '/a', 0, [['on_get', 1], ['on_post', 1], ['on_put_items', 1], ['on_get_items', 1]], [], 0, 0],
+            [0, '/a', 1, [['on_get', 1], ['on_post', 1], ['on_put_items', 1], ['on_get_items', 1]], ['items'], 0, 0]]),
+    (True, [[0, '/a', 0, [['on_get', 1], ['on_post', 1], ['on_put_items', 1], ['on_get_items', 1]], ['items'], 0, 0],
+            [0, '/a', 1, [['on_get', 1], ['on_post', 1], ['on_put_items', 1], ['on_get_items', 1]], [], 0, 0]]),
+    (True, [[0, '/a/{x}', 0, [['on_get', 1], ['on_delete_items', 1]], [], 1, 0],
+            [0, '/a/{x}', 1, [['on_get', 1], ['on_delete_items', 1]], ['items'], 1, 0],
+            [0, '/a/{x}', 2, [['on_get', 1], ['on_delete_items', 1]], ['items'], 1, 0],
+            [1, 0, lit('/a'), False]]),
+    (False, [[0, '/a', 0, [['on_get', 1]], [], 0, 0], [0, '/a', 1, [['on_post', 1], ['on_post_items', 1]], [], 0, 1],
+             [0, '/a', 2, [['on_post', 1], ['on_post_items', 1]], ['items'], 0, 1], [0, '/a', 3, [['on_get', 1]], [], 0, 0]]),
+    (True, [[0, '/a', 0, [['on_get', 1], ['on_get_items', 1]], ['items'], 0, 0], [0, '/a/b', 1, [['on_get', 1], ['on_get_items', 1]], [], 0, 0],
+            [0, '/a', 2, [['on_get', 1], ['on_get_items', 1]], ['zzz'], 0, 0], [0, '/a/b', 3, [['on_get', 1], ['on_get_items', 1]], ['items'], 0, 0]]),
     # named groups that do not take part arrive as None, for explicit-parameter and **kwargs sinks
     (True, [[1, 0, API, True], [1, 1, SINK_PATS[11], True], [1, 2, SINK_PATS[12], False]]),
     (False, [[1, 0, API, False], [1, 1, SINK_PATS[13], True], [1, 2, SINK_PATS[14], True]]),
